@@ -41,12 +41,17 @@ Definition promote_cxx (a b : dtype) : dtype :=
       else s                                      (* the signed type represents every value of the unsigned one *)
   end.
 
-Inductive opkind := Arith | Compare.
+Inductive opkind := Arith | Compare | Pow.
 (* detail.hpp:88-108 *)
 Definition result_dtype (requested : option dtype) (k : opkind) (a b : dtype) : dtype :=
   match requested with
   | Some r => r
-  | None => match k with Arith => promote_cxx a b | Compare => Bool end
+  | None => match k with
+            | Arith => promote_cxx a b
+            | Compare => Bool
+            (* std::pow: float only for (float,float), double for every other arithmetic pair ([c.math] promotion) *)
+            | Pow => match a, b with F32, F32 => F32 | _, _ => F64 end
+            end
   end.
 
 (* the reduction keeps the operand's element type unless a dtype is requested (reduce.hpp: get_result_type) *)
@@ -132,3 +137,13 @@ Proof.
   cbn [binary_result_dtype result_dtype]. rewrite promote_cxx_idem. repeat split.
   destruct a; cbn; intros; try reflexivity; discriminate.
 Qed.
+
+(* A scalar operand reaches the scalar operation as a VALUE of its own element type (so that (array element, scalar) is an
+   ordinary mixed-type pair of the table above).  On the tree before fixes/C07_scalar_operand_value.diff the operation received
+   the scalar as a 0-dim VIEW object; operations written with ?: or common_type (maximum, minimum, power, where) then converted
+   it to the ARRAY's element type first: maximum(int8 array [1], int32 scalar 1000) gave int8(1000) = -24 instead of 1000. *)
+Lemma scalar_operand_as_array_type_refuted :
+  exists (arr scal : dtype) (x k : Z),
+    int_cast (binary_result_dtype CastDefault Arith arr scal) (Z.max x k)
+    <> int_cast (binary_result_dtype CastDefault Arith arr scal) (Z.max x (int_cast arr k)).
+Proof. exists I8, I32, 1%Z, 1000%Z. vm_compute. discriminate. Qed.
